@@ -1616,3 +1616,252 @@ Proof.
   intros h schs ts w sl l p H. destruct (join_hyps_sound schs ts w sl H) as (H1 & H2 & H3 & H4 & H5 & H6 & H7).
   now apply every_candidate_equiv_env.
 Qed.
+
+(** * 13. Witnesses: where the statement fails without its side conditions *)
+
+(** a hash that separates different serialisations (what murmur does in practice) *)
+Definition wit_hash (v : value) : N :=
+  match v with VInt z => Z.to_N (z + 2147483648) | VFloat u => u | _ => 0%N end.
+
+Definition i2 : schema := [(TInt, false); (TInt, false)].
+Definition cands (schs : list schema) (w : jpred) (sl : list nat) : list jplan :=
+  match join_candidates schs w sl with Some l => l | None => [] end.
+Definition dummy_plan : jplan := JScan 0 PSeqScan.
+
+Ltac hyps_by_compute :=
+  repeat match goal with
+  | |- (_ = _) /\ _ => fail 1
+  | |- (exists _, _) /\ _ => fail 1
+  | |- _ /\ _ => split
+  | |- tables_wf _ _ => apply tables_wfb_ok; vm_compute; reflexivity
+  | |- query_scoped _ _ _ => apply scopedb_ok; vm_compute; reflexivity
+  | |- conds_ok _ _ => apply conds_okb_ok; vm_compute; reflexivity
+  | |- filters_ok _ _ _ => apply filters_okb_ok; vm_compute; reflexivity
+  | |- indexed_cols_nonnull _ _ => apply indexed_okb_ok; vm_compute; reflexivity
+  | |- no_null_keys _ _ _ => apply has_null_key_false; vm_compute; reflexivity
+  | |- no_neg_zero_keys _ _ _ => apply has_neg_zero_key_false; vm_compute; reflexivity
+  end.
+
+(** ** F-NULL-JOIN.  SQL:
+      na(a0,a1) = (NULL,1),(3,4)   nb(b0,b1) = (NULL,2),(3,5)
+      SELECT na.a1, nb.b1 FROM na, nb WHERE na.a0 = nb.b0 AND na.a0 = nb.b0
+    (two linking equalities: nested loop join + Selection) also returns (1,2);
+      SELECT na.a1, nb.b1 FROM na, nb WHERE na.a0 = nb.b0
+    (hash join) returns (4,5) only, as the reference does for both. *)
+Definition null_na : table := [[VNull; VInt 1]; [VInt 3; VInt 4]].
+Definition null_nb : table := [[VNull; VInt 2]; [VInt 3; VInt 5]].
+Definition null_w2 : jpred := JAnd (JColEq 0 2) (JColEq 0 2).
+Definition null_w1 : jpred := JColEq 0 2.
+
+Lemma null_key_two_tables_lemma :
+  let schs := [i2; i2] in let ts := [null_na; null_nb] in let sl := [1; 3] in
+  tables_wf schs ts /\ query_scoped schs null_w2 sl /\ conds_ok schs null_w2 /\ filters_ok schs ts null_w2 /\
+  indexed_cols_nonnull schs ts /\ no_neg_zero_keys schs ts null_w2 /\
+  has_null_key schs ts null_w2 = true /\
+  map algs (cands schs null_w2 sl) = [[ANest]; [ANest]] /\
+  map (run_join wit_hash schs ts) (cands schs null_w2 sl) =
+    [Some [[VInt 1; VInt 2]; [VInt 4; VInt 5]]; Some [[VInt 1; VInt 2]; [VInt 4; VInt 5]]] /\
+  join_sel sl null_w2 ts = [[VInt 4; VInt 5]] /\
+  nth_error (cands schs null_w1 sl) 0 =
+    Some (JProject (JHash (JScan 0 (PProjection PSeqScan [0; 1])) (JScan 1 (PProjection PSeqScan [0; 1])) 0 2) [1; 3]) /\
+  forallb (fun p => match run_join wit_hash schs ts p with Some [[VInt 4; VInt 5]] => true | _ => false end)
+          (cands schs null_w1 sl) = true /\
+  join_sel sl null_w1 ts = [[VInt 4; VInt 5]].
+Proof.
+  cbv zeta. hyps_by_compute. repeat (split; [vm_compute; reflexivity|]). vm_compute; reflexivity.
+Qed.
+
+(** Three tables, ONE query, two candidates of the dynamic programme:
+      ta(a0,a1) = (1,10)   tb(b0,b1) = (1,NULL)   tc(c0,c1) = (NULL,7)
+      SELECT ta.a1, tc.c1 FROM ta, tb, tc WHERE ta.a0 = tb.b0 AND tb.b1 = tc.c0
+    joined as (ta x tb by hash) x tc by hash: no row;
+    joined as (ta x tc nested loop) x tb nested loop + Selection: the row (10,7). *)
+Definition null_ta : table := [[VInt 1; VInt 10]].
+Definition null_tb : table := [[VInt 1; VNull]].
+Definition null_tc : table := [[VNull; VInt 7]].
+Definition null_w3 : jpred := JAnd (JColEq 0 2) (JColEq 3 4).
+
+Lemma null_key_plan_dependent_refuted_lemma :
+  let schs := [i2; i2; i2] in let ts := [null_ta; null_tb; null_tc] in let sl := [1; 5] in
+  tables_wf schs ts /\ query_scoped schs null_w3 sl /\ conds_ok schs null_w3 /\ filters_ok schs ts null_w3 /\
+  indexed_cols_nonnull schs ts /\ no_neg_zero_keys schs ts null_w3 /\
+  has_null_key schs ts null_w3 = true /\
+  exists l pH pN, join_candidates schs null_w3 sl = Some l /\ In pH l /\ In pN l /\
+    algs pH = [AHash; AHash] /\ algs pN = [ANest; ANest] /\
+    run_join wit_hash schs ts pH = Some [] /\
+    run_join wit_hash schs ts pN = Some [[VInt 10; VInt 7]] /\
+    join_sel sl null_w3 ts = [].
+Proof.
+  cbv zeta. hyps_by_compute. split; [vm_compute; reflexivity|].
+  exists (cands [i2; i2; i2] null_w3 [1; 5]),
+         (nth 0 (cands [i2; i2; i2] null_w3 [1; 5]) dummy_plan),
+         (nth 64 (cands [i2; i2; i2] null_w3 [1; 5]) dummy_plan).
+  split; [vm_compute; reflexivity|].
+  split; [apply nth_In; vm_compute; lia|]. split; [apply nth_In; vm_compute; lia|].
+  split; [vm_compute; reflexivity|]. split; [vm_compute; reflexivity|].
+  split; [vm_compute; reflexivity|]. split; vm_compute; reflexivity.
+Qed.
+
+(** ** float32 -0.0 / +0.0 as join keys (not reachable through SQL text: the
+    front end cannot parse a negative literal; through the row-level API only):
+      ga(x float, y int) = (-0.0, 1)    gb(u float indexed, v int) = (+0.0, 10)
+      SELECT ga.y, gb.v FROM ga, gb WHERE ga.x = gb.u
+    hash join: no row (the two zeros serialise, hence hash, differently);
+    index join: (1,10), as the reference (IEEE equality). *)
+Definition nz_s0 : schema := [(TFloat, false); (TInt, false)].
+Definition nz_s1 : schema := [(TFloat, true); (TInt, false)].
+Definition nz_ga : table := [[VFloat two31; VInt 1]].
+Definition nz_gb : table := [[VFloat 0; VInt 10]].
+
+Lemma neg_zero_key_plan_dependent_refuted_lemma :
+  let schs := [nz_s0; nz_s1] in let ts := [nz_ga; nz_gb] in let w := JColEq 0 2 in let sl := [1; 3] in
+  tables_wf schs ts /\ query_scoped schs w sl /\ conds_ok schs w /\ filters_ok schs ts w /\
+  indexed_cols_nonnull schs ts /\ no_null_keys schs ts w /\
+  has_neg_zero_key schs ts w = true /\
+  exists l pH pI, join_candidates schs w sl = Some l /\ In pH l /\ In pI l /\
+    algs pH = [AHash] /\ algs pI = [AIndex] /\
+    run_join wit_hash schs ts pH = Some [] /\
+    run_join wit_hash schs ts pI = Some [[VInt 1; VInt 10]] /\
+    join_sel sl w ts = [[VInt 1; VInt 10]].
+Proof.
+  cbv zeta. hyps_by_compute. split; [vm_compute; reflexivity|].
+  exists (cands [nz_s0; nz_s1] (JColEq 0 2) [1; 3]),
+         (nth 0 (cands [nz_s0; nz_s1] (JColEq 0 2) [1; 3]) dummy_plan),
+         (nth 2 (cands [nz_s0; nz_s1] (JColEq 0 2) [1; 3]) dummy_plan).
+  split; [vm_compute; reflexivity|].
+  split; [apply nth_In; vm_compute; lia|]. split; [apply nth_In; vm_compute; lia|].
+  split; [vm_compute; reflexivity|]. split; [vm_compute; reflexivity|].
+  split; [vm_compute; reflexivity|]. split; vm_compute; reflexivity.
+Qed.
+
+(** ** An equality between two columns of ONE table is applied by no plan node
+    (findBestScan skips column = column, findBestJoinInner only keeps equalities
+    that link its two inputs).  SQL:
+      ta(a0,a1) = (1,1),(2,20)   tb(b0,b1) = (2,3),(1,3)
+      SELECT ta.a1, tb.b1 FROM ta, tb WHERE ta.a0 = tb.b0 AND ta.a0 = ta.a1
+    every candidate returns (20,3),(1,3); the reference (1,3). *)
+Definition st_ta : table := [[VInt 1; VInt 1]; [VInt 2; VInt 20]].
+Definition st_tb : table := [[VInt 2; VInt 3]; [VInt 1; VInt 3]].
+Definition st_w : jpred := JAnd (JColEq 0 2) (JColEq 0 1).
+
+Lemma same_table_equality_dropped_lemma :
+  let schs := [i2; i2] in let ts := [st_ta; st_tb] in let sl := [1; 3] in
+  tables_wf schs ts /\ query_scoped schs st_w sl /\ filters_ok schs ts st_w /\
+  indexed_cols_nonnull schs ts /\ no_null_keys schs ts st_w /\ no_neg_zero_keys schs ts st_w /\
+  conds_okb schs st_w = false /\
+  length (cands schs st_w sl) = 8 /\
+  forallb (fun p => match run_join wit_hash schs ts p with
+                    | Some [[VInt 20; VInt 3]; [VInt 1; VInt 3]] | Some [[VInt 1; VInt 3]; [VInt 20; VInt 3]] => true
+                    | _ => false end) (cands schs st_w sl) = true /\
+  join_sel sl st_w ts = [[VInt 1; VInt 3]].
+Proof.
+  cbv zeta. hyps_by_compute. repeat (split; [vm_compute; reflexivity|]). vm_compute; reflexivity.
+Qed.
+
+(** ** The full statements, refuted *)
+
+Definition every_candidate_equiv_null_keys : Prop := forall h schs ts w sl l p,
+  tables_wf schs ts -> query_scoped schs w sl -> conds_ok schs w -> filters_ok schs ts w ->
+  indexed_cols_nonnull schs ts -> no_neg_zero_keys schs ts w ->
+  join_candidates schs w sl = Some l -> In p l ->
+  exists out, run_join h schs ts p = Some out /\ Permutation out (join_sel sl w ts).
+
+Lemma every_candidate_equiv_null_keys_refuted_lemma : ~ every_candidate_equiv_null_keys.
+Proof.
+  intros H. destruct null_key_plan_dependent_refuted_lemma
+    as (H1 & H2 & H3 & H4 & H5 & H6 & _ & l & pH & pN & Hc & _ & HN & _ & _ & _ & RN & Href).
+  destruct (H wit_hash _ _ _ _ l pN H1 H2 H3 H4 H5 H6 Hc HN) as (out & R & P).
+  rewrite RN in R. injection R as <-. rewrite Href in P. apply Permutation_length in P. discriminate.
+Qed.
+
+Definition candidates_agree_null_keys : Prop := forall h schs ts w sl l p1 p2,
+  tables_wf schs ts -> query_scoped schs w sl -> conds_ok schs w -> filters_ok schs ts w ->
+  indexed_cols_nonnull schs ts -> no_neg_zero_keys schs ts w ->
+  join_candidates schs w sl = Some l -> In p1 l -> In p2 l ->
+  exists o1 o2, run_join h schs ts p1 = Some o1 /\ run_join h schs ts p2 = Some o2 /\ Permutation o1 o2.
+
+Lemma candidates_agree_null_keys_refuted_lemma : ~ candidates_agree_null_keys.
+Proof.
+  intros H. destruct null_key_plan_dependent_refuted_lemma
+    as (H1 & H2 & H3 & H4 & H5 & H6 & _ & l & pH & pN & Hc & HH & HN & _ & _ & RH & RN & _).
+  destruct (H wit_hash _ _ _ _ l pH pN H1 H2 H3 H4 H5 H6 Hc HH HN) as (o1 & o2 & R1 & R2 & P).
+  rewrite RH in R1. rewrite RN in R2. injection R1 as <-. injection R2 as <-.
+  apply Permutation_length in P. discriminate.
+Qed.
+
+Definition every_candidate_equiv_neg_zero_keys : Prop := forall h schs ts w sl l p,
+  tables_wf schs ts -> query_scoped schs w sl -> conds_ok schs w -> filters_ok schs ts w ->
+  indexed_cols_nonnull schs ts -> no_null_keys schs ts w ->
+  join_candidates schs w sl = Some l -> In p l ->
+  exists out, run_join h schs ts p = Some out /\ Permutation out (join_sel sl w ts).
+
+Lemma every_candidate_equiv_neg_zero_keys_refuted_lemma : ~ every_candidate_equiv_neg_zero_keys.
+Proof.
+  intros H. destruct neg_zero_key_plan_dependent_refuted_lemma
+    as (H1 & H2 & H3 & H4 & H5 & H6 & _ & l & pH & pI & Hc & HH & _ & _ & _ & RH & _ & Href).
+  destruct (H wit_hash _ _ _ _ l pH H1 H2 H3 H4 H5 H6 Hc HH) as (out & R & P).
+  rewrite RH in R. injection R as <-. rewrite Href in P. apply Permutation_length in P. discriminate.
+Qed.
+
+(** * 14. Examples (non-vacuity) *)
+
+(** all columns indexed, as after CREATE TABLE through SQL *)
+Definition ix2 : schema := [(TInt, true); (TInt, true)].
+(** duplicate keys (2 twice on both sides), keys missing on either side (5, 7 / 9) *)
+Definition ex_ta : table := [[VInt 1; VInt 10]; [VInt 2; VInt 20]; [VInt 2; VInt 21]; [VInt 5; VInt 50]; [VInt 7; VInt 3]].
+Definition ex_tb : table := [[VInt 2; VInt 3]; [VInt 2; VInt 1]; [VInt 1; VInt 7]; [VInt 9; VInt 9]; [VInt 1; VInt 10]].
+Definition ex_tc : table := [[VInt 1; VInt 1]; [VInt 2; VInt 7]; [VInt 2; VInt 5]; [VInt 3; VInt 3]].
+(** SELECT ta.a1, tb.b1 FROM ta, tb WHERE ta.a0 = tb.b0 AND tb.b1 > 2 *)
+Definition ex_w2 : jpred := JAnd (JColEq 0 2) (JCmp 3 OGt (VInt 2)).
+(** SELECT tc.c1, ta.a1 FROM ta, tb, tc WHERE ta.a0 = tb.b0 AND tb.b1 = tc.c1 AND tc.c0 > 0   (a chain) *)
+Definition ex_w3 : jpred := JAnd (JAnd (JColEq 0 2) (JColEq 3 5)) (JCmp 4 OGt (VInt 0)).
+
+Definition results (schs : list schema) (ts : list table) (w : jpred) (sl : list nat) : list (option table) :=
+  map (run_join wit_hash schs ts) (cands schs w sl).
+
+Fixpoint dedup_nat_lists (l : list (list nat)) : list (list nat) :=
+  match l with
+  | [] => []
+  | x :: l' => if existsb (list_nat_eqb x) l' then dedup_nat_lists l' else x :: dedup_nat_lists l'
+  end.
+
+(** multiset equality of two tables, for the examples *)
+Definition value_eqb (a b : value) : bool :=
+  match a, b with
+  | VNull, VNull => true
+  | VInt x, VInt y => Z.eqb x y
+  | VFloat u, VFloat v => N.eqb u v
+  | VStr s, VStr t => match lex_cmp s t with Eq => true | _ => false end
+  | _, _ => false
+  end.
+Fixpoint row_eqb (a b : row) : bool :=
+  match a, b with
+  | [], [] => true
+  | x :: a', y :: b' => value_eqb x y && row_eqb a' b'
+  | _, _ => false
+  end.
+Fixpoint remove1 (x : row) (l : table) : option table :=
+  match l with
+  | [] => None
+  | y :: l' => if row_eqb x y then Some l' else option_map (cons y) (remove1 x l')
+  end.
+Fixpoint same_rows (a b : table) : bool :=
+  match a with
+  | [] => match b with [] => true | _ => false end
+  | x :: a' => match remove1 x b with Some b' => same_rows a' b' | None => false end
+  end.
+
+(** every candidate runs and returns the rows [ref] in some order *)
+Definition all_return (schs : list schema) (ts : list table) (w : jpred) (sl : list nat) (ref : table) : bool :=
+  forallb (fun o => match o with Some out => same_rows out ref | None => false end) (results schs ts w sl).
+
+Fixpoint dedup_algs (l : list (list jalg)) : list (list jalg) :=
+  let alg_eqb (a b : jalg) := match a, b with AHash, AHash | AIndex, AIndex | ANest, ANest => true | _, _ => false end in
+  let fix leq (a b : list jalg) := match a, b with
+                                   | [], [] => true
+                                   | x :: a', y :: b' => alg_eqb x y && leq a' b'
+                                   | _, _ => false end in
+  match l with
+  | [] => []
+  | x :: l' => if existsb (leq x) l' then dedup_algs l' else x :: dedup_algs l'
+  end.
